@@ -177,9 +177,10 @@ func runTemplates(r *hx.Result, cfg hx.Config) {
 	path := filepath.Join(verifRoot(), "coq", "Gen", "Templates.v")
 	have, err := os.ReadFile(path)
 	want := o.Coq()
-	if err != nil || string(have) != want {
+	// positions (comments) move with unrelated edits; the definitions are what the theorems are about
+	if err != nil || stripComments(string(have)) != stripComments(want) {
 		what := "coq/Gen/Templates.v is not what harness/cmd/tmplx extracts from the working tree: c17_all_templates was not checked against the current reply expressions (run .work/bin/tmplx or `go run ./cmd/tmplx` in harness/, then ./check C17)"
-		diff := firstDiff(string(have), want)
+		diff := firstDiff(stripComments(string(have)), stripComments(want))
 		r.Fail(hx.Failure{Kind: "correspondence", Signature: "gen-templates-stale", What: what, Case: path, Impl: diff[1], Model: diff[0]})
 	}
 	if holes["HFloat"] > 0 {
@@ -202,4 +203,15 @@ func firstDiff(a, b string) [2]string {
 		}
 	}
 	return [2]string{"", ""}
+}
+
+func stripComments(s string) string {
+	var out []string
+	for _, l := range strings.Split(s, "\n") {
+		if strings.HasPrefix(strings.TrimSpace(l), "(*") && strings.HasSuffix(strings.TrimSpace(l), "*)") {
+			continue
+		}
+		out = append(out, l)
+	}
+	return strings.Join(out, "\n")
 }
